@@ -42,7 +42,7 @@ ROWS = {
    text='Bounds are placed -3..+3 s and far around the reject edge and the accept edge for each allowance; acceptance outside a window, rejection of a comfortably valid profile-conformant response, ordering violations, the IssueInstant window and the session expiry handed to the application are judged; instants within 1 s of an edge are run but not judged.',
    note=TOOL_NOTE + '; clock frozen by module-global rebinding after import.'),
  'C05': dict(level='exploration', design='3/C05',
-   technique='enumeration of the addressing cross product (pair-covering + strided sample in quick, complete in thorough) with a reference predicate written from the four clauses of the statement',
+   technique='enumeration of the addressing cross product (pair-covering + strided sample: every 61st row in quick, every third row in thorough) with a reference predicate written from the four clauses of the statement',
    text='Rows over InResponseTo x bearer confirmations (incl. several per assertion) x Destination x AudienceRestrictions x Recipient x allow_unsolicited x conversation info x destination pattern x plain/encrypted x POST/Redirect/Artifact/SOAP x signed/unsigned are rendered and delivered; must-reject rows must be refused, conformant rows accepted, came_from must name the answered request.',
    note=TOOL_NOTE + '; solicitation judged for browser bindings only; frozen clock.'),
  'C07': dict(level='exploration', design='3/C07',
